@@ -115,6 +115,44 @@ class Overlay:
         return results
 
 
+def unwindset_for(ov, harness, rules, mem_gb=8):
+    """Per-loop unwinding bounds: compile `harness` only, list CBMC's loops, and give every loop whose
+    function matches `fn_regex` and whose source line matches `line_regex` the bound `n`.
+    rules = [(fn_regex, line_regex, n)].  Returns (unwindset string or None, description list).
+    Loops of the matched functions that match no rule make the result None (caller falls back to the
+    global bound, which is sound but slow)."""
+    cmd = ["cargo", "kani", "--only-codegen", "--harness", harness]
+    if not ov.std:
+        cmd.append("--no-default-features")
+    rc, out, secs = run(cmd, cwd=ov.dir, env=offline_env(), timeout=900, mem_gb=mem_gb)
+    outs = [f for f in glob.glob(os.path.join(ov.dir, "target", "kani", "*", "debug", "build", "raptorq", "*", "out", "*%s.out" % harness))]
+    if not outs:
+        outs = [f for f in glob.glob(os.path.join(ov.dir, "target", "**", "*%s.out" % harness), recursive=True)]
+    if not outs:
+        return None, ["no goto binary for %s: %s" % (harness, out[-300:])]
+    rc, text, secs = run(["cbmc", "--show-loops", outs[0]], timeout=300)
+    items, desc = [], []
+    fn_res = [re.compile(r[0]) for r in rules]
+    for m in re.finditer(r"Loop (\S+):\n\s+file (\S+) line (\d+)(?: column \d+)? function (.*)", text):
+        name, fil, line, fn = m.group(1), m.group(2), int(m.group(3)), m.group(4)
+        if not any(fr.search(fn) for fr in fn_res):
+            continue
+        try:
+            src = open(os.path.join(ov.dir, fil)).read().splitlines()[line - 1].strip()
+        except Exception:
+            return None, ["cannot read %s:%d" % (fil, line)]
+        for fr, lr, n in rules:
+            if re.search(fr, fn) and re.search(lr, src):
+                items.append("%s:%d" % (name, n))
+                desc.append("%s:%d `%s` unwind %d" % (fil, line, src, n))
+                break
+        else:
+            return None, ["loop at %s:%d `%s` matches no unwinding rule" % (fil, line, src)]
+    if not items:
+        return None, ["no loops matched"]
+    return ",".join(items), desc
+
+
 _CHECKING = re.compile(r"^Thread (\d+): Checking harness (\S+?)\.\.\.\s*$")
 _THREAD = re.compile(r"^Thread (\d+): ?(.*)$")
 _SEQ_CHECKING = re.compile(r"^Checking harness (\S+?)\.\.\.\s*$")
